@@ -9,6 +9,7 @@
 
 pub mod cffgen;
 pub mod drive;
+pub mod enc;
 pub mod ift;
 pub mod mutants;
 pub mod ttgen;
@@ -21,7 +22,30 @@ pub const REPLAY: Option<fn(&mut Ctx, &Args, &Value, Option<&[u8]>)> = Some(repl
 
 pub fn run(ctx: &mut Ctx, args: &Args) {
     ctx.policy = PanicPolicy::Totality;
+    if args.profile == "asan" {
+        return asan_slice(ctx, args);
+    }
     workload(ctx, args)
+}
+
+/// Profile "asan" (extra stage "asan", /verif/tools/stage_asan.sh): the binary, the IFT client and the C brotli
+/// library are built with AddressSanitizer. Only the part of the workload that reaches the REAL C decoder runs:
+/// IFT tuples (hostile fonts / mapping tables / subset definitions) whose patches carry genuinely compressed
+/// brotli streams (C encoder; a third of them damaged afterwards; hostile max_uncompressed_length capped at
+/// 16 MiB) applied through `apply_next_patches` and `apply_next_patches_with_decoder(BuiltInBrotliDecoder)`.
+/// A memory error ends the process with an ASan report (exit 77) that the driver turns into a violation; the
+/// totality oracle (panic + cpu-time monitors) stays on.
+fn asan_slice(ctx: &mut Ctx, _args: &Args) {
+    ctx.rule = "asan slice: an IFT (font, subset definition, patch map, patch bytes) tuple whose font opened and for which selection or application                 through the real C brotli decoder returned a value; digest = font + tuple shape + patch seed"
+        .into();
+    ctx.level = "exploration".into();
+    ctx.assumptions = vec![
+        "asan slice: binary, IFT client and the C brotli library (brotlic-sys, CC=clang -fsanitize=address) are ASan-instrumented; a report ends the process (exit 77) and the driver turns it into a violation".into(),
+        "patch streams are produced by the C brotli encoder of the same library (qualities 0-11, windows 2^10-2^24, raw shared dictionary for diff entries against the small test tables), 1 in 8 stored; 1 in 3 patches is damaged in the stream area afterwards".into(),
+        "an uncapped (> 16 MiB) max_uncompressed_length request to the C brotli decoder is noted (counter ift_decode_requests_over_16MiB_not_executed), not executed".into(),
+    ];
+    let mut items = Items { next: 0 };
+    ift::sec_ift_asan(ctx, &mut items);
 }
 
 /// Work-item counter shared by all sections so that items are spread over
